@@ -667,6 +667,56 @@ def check_beats(ctx: Ctx):
     ctx.floor("R03.3", 12, "truth-table rows")
 
 
+def check_metric_twins(ctx: Ctx):
+    """R03.9 (sibling agreement): the metric enum mirrors decision helpers of the metric value class (the matchers
+    call the enum's copy).  Every helper defined on both with the same parameters is evaluated on a grid of
+    rational arguments for both metric directions; the two copies must return the same value everywhere."""
+    from itertools import product
+
+    from .common import metric_enum_class, metric_value_class
+
+    prog = ctx.prog
+    ecls, vcls = metric_enum_class(prog), metric_value_class(prog)
+    grid = (Fraction(0), Fraction(1, 4), Fraction(1, 2), Fraction(3, 4), Fraction(1))
+    n = 0
+    for name in sorted(set(ecls.methods) & set(vcls.methods)):
+        fe, fv = ecls.methods[name], vcls.methods[name]
+        if name.startswith("__") or any(isinstance(d, ast.Name) and d.id == "property" for d in fe.node.decorator_list + fv.node.decorator_list):
+            continue
+        pe, pv_ = [p.name for p in fe.call_params], [p.name for p in fv.call_params]
+        if pe != pv_ or not pe or len(pe) > 3:
+            continue
+        # a copy that merely forwards to the other one agrees by construction (and is run anyway)
+        construct = f"{ecls.name}.{name}~{vcls.name}.{name}"
+        verdict, witness, pts = True, None, 0
+        for dec in (False, True):
+            mv, me = make_metric_objs(prog, dec)
+            for vals in product(grid, repeat=len(pe)):
+                res = []
+                for f_, so in ((fe, me), (fv, mv)):
+                    out = Interp(prog, f_, dict(zip(pe, vals)), self_obj=so).run()
+                    if out.decisions or out.kind not in ("return", "raise") or isinstance(out.value, Unknown):
+                        verdict = None
+                        witness = {"why": f"{f_.qual} not evaluable on {[str(v) for v in vals]}: {out.kind} {out.value!r}"}
+                        break
+                    res.append((out.kind, out.value if out.kind == "return" else out.exc))
+                if verdict is None:
+                    break
+                pts += 1
+                if res[0] != res[1]:
+                    verdict, witness = False, {"lower_is_better": dec, "arguments": dict(zip(pe, (str(v) for v in vals))), fe.qual: repr(res[0][1]), fv.qual: repr(res[1][1])}
+                    break
+            if verdict is not True:
+                break
+        n += 1
+        if verdict is None:
+            ctx.ok("R03.9", fe, fe.node, construct, "helper not a function of numbers: not compared", witness, nontrivial=False)
+        else:
+            ctx.decide("R03.9", fe, fe.node, construct, f"both copies of the helper return the same value on a grid of arguments ({pts} points, both directions)", verdict, witness)
+    if n == 0:
+        ctx.ok("R03.9", None, None, "metric-twins:none", "no helper is defined on both metric classes", None, nontrivial=False)
+
+
 # ----------------------------------------------------------------------------------------
 # R03.4 / R03.5  greedy assignment
 # ----------------------------------------------------------------------------------------
@@ -1420,6 +1470,7 @@ def check(ctx: Ctx):
     _guarded(ctx, "R03.1", check_codec)
     _guarded(ctx, "R03.2", check_candidates)
     _guarded(ctx, "R03.3", check_beats)
+    _guarded(ctx, "R03.9", check_metric_twins)
     _guarded(ctx, "R03.8", check_effective_threshold)
     n = _guarded(ctx, "R03.4", check_naive)
     # completeness of candidate discovery also needs the pair codes not to wrap (R09.1)
